@@ -2,25 +2,42 @@
 from common import SAN_BASE
 
 PROP = dict(
-        technique="runtime monitoring: ASan/UBSan build + sent-log/received-log comparison and bounded-progress monitor stepped after every queue operation",
-        level_text=("Monitored executions of the real encode_queue -> byte stream -> decode_queue path: PRNG histories of "
-                    "mpt_queue_push / transport cut / mpt_queue_recv / mpt_message_get / mpt_queue_shift over 4 COBS framings, "
-                    "chosen ring capacities and start offsets (all offsets for capacities 4..12 quick / 4..32 thorough); after each "
-                    "operation the received messages are compared with the sent log (exactly once, in order, byte-equal), queue "
-                    "invariants are checked and a complete frame has to be delivered within a bounded number of receive attempts.  "
-                    "Exploration, not proof."),
-        level_note="trusts the sent/received log comparison in harness/c02_queue.c, delimiter counting as frame-completeness test, gcc ASan+UBSan red zones",
+        technique="runtime monitoring: ASan/UBSan build + sent-log/received-log comparison and bounded-progress monitor stepped after every queue / stream operation",
+        level_text=("Monitored executions of the real code on two levels.  Queue level: PRNG histories of mpt_queue_push into an "
+                    "encode_queue, transport of the finished bytes in chosen cuts, mpt_queue_recv / mpt_message_get / mpt_queue_shift / "
+                    "mpt_queue_peek on a decode_queue, 4 COBS framings, chosen ring capacities and start offsets (every start offset "
+                    "for capacities 4..12 quick / 4..32 thorough), rings rotated with mpt_queue_align so that the open encoder block and "
+                    "the decoded data straddle the wrap.  Stream level: two mpt_stream objects on non-blocking pipes / stream sockets, "
+                    "mpt_stream_push / mpt_stream_flush on one side, the harness moving the bytes in chosen segments, mpt_stream_poll / "
+                    "mpt_stream_dispatch on the other.  After each operation the messages obtained are compared with the sent log "
+                    "(exactly once, in order, byte-equal; decoded part of the message in progress is a prefix of the next message), "
+                    "queue invariants are checked, and a complete frame has to be delivered within a bounded number of receive "
+                    "attempts once the reader got the space it asked for.  Exploration, not proof."),
+        level_note=("trusts the sent/received log comparison in harness/c02_queue.c and c02_stream.c, delimiter counting as "
+                    "frame-completeness test, gcc ASan+UBSan red zones; stalls are decided as bounded progress in receive attempts"),
         legs=[dict(name="c02_queue", src=["c02_queue.c"], libs=["mptcore"], batch=64,
-                   floors={"mpt_queue_push": 100000, "mpt_queue_recv": 100000, "mpt_message_get": 50000,
-                           "recv:message": 50000, "history:enc-wrapped": 1000, "history:dec-wrapped": 1000,
-                           "history:frame-in-several-segments": 2000}),
+                   floors={"mpt_queue_push": 1000000, "mpt_queue_recv": 1000000, "mpt_message_get": 300000,
+                           "mpt_queue_peek": 100000, "mpt_queue_shift": 100000,
+                           "recv:message": 300000, "recv:MissingBuffer": 5000, "monitor:partial-prefix": 1000000,
+                           "push-path:upper-part": 10000, "push-path:out-of-band": 2000,
+                           "history:enc-wrapped": 5000, "history:dec-wrapped": 5000, "history:message-split": 5000,
+                           "history:frame-in-several-segments": 20000, "monitor:progress-check": 10000}),
               dict(name="c02_stream", src=["c02_stream.c"], libs=["mptio", "mptcore"], batch=64,
-                   floors={"mpt_stream_push": 20000, "mpt_stream_dispatch": 20000, "dispatch:callback": 20000,
-                           "history:frame-in-several-segments": 1000})],
-        rule=("case = one history: framing, encode/decode ring capacity and start offset, 5..60 messages with unique ids, "
-              "PRNG schedule of push piece / terminate / move k finished bytes / receive / shift; non-trivial = at least 3 "
-              "messages delivered, a ring wrapped at least once and at least one frame reached the reader in several segments; "
-              "distinct = 64-bit hash of parameters, message bytes and the operation list"),
-        exhaustive_note="every start offset of both rings for capacities 4..12 (quick) / 4..32 (thorough) x 4 framings (message content and schedule sampled)",
-        assumptions=SAN_BASE + ["frames contain no interior zero byte, so the number of delimiters moved is the number of complete frames at the reader"],
+                   floors={"mpt_stream_push": 100000, "mpt_stream_flush": 100000, "mpt_stream_dispatch": 100000,
+                           "dispatch:callback": 50000, "dispatch:retry": 5000,
+                           "history:stream-frame-in-several-segments": 5000, "history:stream-dec-wrapped": 2000,
+                           "history:flush-met-full-transport": 20, "monitor:stream-progress-check": 10000})],
+        rule=("case = one history.  Queue leg: framing, encode/decode ring capacity and start offset, 5..60 messages (length 0..1600, "
+              "thorough ..4200; unique ids; zero pairs, block-boundary lengths), PRNG schedule of push piece / terminate / move k "
+              "finished bytes (1 byte, up to / just behind a delimiter, behind a code byte, all) / receive / shift / peek / rotate ring; "
+              "stream leg: 4..30 messages, schedule of stream push / flush / pump k bytes between the pipes / poll+dispatch.  "
+              "Non-trivial = at least 3 messages delivered, at least one frame reached the reader in several segments and (queue leg) "
+              "a ring wrapped at least once; distinct = 64-bit hash of parameters, message bytes and the operation list"),
+        exhaustive_note="queue leg: every start offset of both rings for capacities 4..12 (quick) / 4..32 (thorough) x 4 framings (message content and schedule sampled)",
+        assumptions=SAN_BASE + ["frames contain no interior zero byte, so the number of delimiters moved is the number of complete frames at the reader",
+                                "[data.pos, +data.len) of a decode_queue holds the decoded bytes of the message in progress (source comments, examples/core/coding.c)",
+                                "rings may be enlarged with mpt_queue_prepare after MissingBuffer / when full, and rotated with mpt_queue_align, at any time "
+                                "(positions are relative to the queue start)",
+                                "stream leg: transports are non-blocking pipes and AF_UNIX stream sockets; datagram mode is not driven",
+                                "mpt_queue_peek: return value and copied bytes are only required to be the decoded length / a prefix of the next message"],
     )
